@@ -1,0 +1,15 @@
+//go:build verif
+
+package types
+
+// Contracts for the deductive checker in /verif (comment-only; compiled only with -tags verif). C10.
+
+/*@
+func (TokenPair).IsNativeCoin
+    inline
+func (TokenPair).IsNativeERC20
+    inline
+// message constructor used by the IBC callbacks and the bank-send wrapper
+func NewMsgConvertCoin
+    ensures result != nil && fresh(result) && result.Coin == coin && result.Receiver == eaddr_hex(receiver) && result.Sender == addr_string(sender)
+@*/
